@@ -70,7 +70,7 @@ func cmdCheck(args []string) int {
 	trace := fs.Bool("trace", false, "trace instructions")
 	verbose := fs.Bool("v", false, "verbose")
 	noReplay := fs.Bool("no-replay", false, "skip native replay (debugging only; result is then not reported as a pass)")
-	solverS := fs.String("solver", "z3 -in", "solver command")
+	solverS := fs.String("solver", envOr("VERIF_SOLVER", "z3-new -in"), "solver command")
 	var prop string
 	if len(args) > 0 && !strings.HasPrefix(args[0], "-") {
 		prop = args[0]
